@@ -7,6 +7,8 @@ here="$(dirname "$(readlink -f "$0")")"
 export VERIF_SHRINK_TIME="${VERIF_SHRINK_TIME:-20s}"
 while read commit prop; do
   [ -z "$commit" ] && continue
+  # an un-fix that a later repair has made meaningless (reverts/_moot/<commit>.MOOT.txt says why) is not run
+  if [ -f "$here/../reverts/_moot/$commit.MOOT.txt" ]; then echo "$commit $prop moot (see reverts/_moot/$commit.MOOT.txt)"; continue; fi
   keep=$(mktemp -d /tmp/revkeep-XXXXXX)
   out=$(MUT_KEEP_REPLAY=$keep MUT_LINES=3 MUT_COLS=200 "$here/run_mutant.sh" "$here/../reverts/$commit.diff" $prop ${1:-quick} 2>&1 | grep -v WARNING)
   rc=$(echo "$out" | grep -o 'rc=[0-9]*' | tail -1)
